@@ -114,6 +114,8 @@ class Sandbox:
         st = st or os.lstat(filename)
         if stat.S_ISLNK(st.st_mode) and os.path.isfile(filename):
             st = os.stat(filename)          # a link to a regular file counts as that file
+        elif stat.S_ISLNK(st.st_mode) and not os.path.exists(filename):
+            return {'t': 'pin'}             # a dangling link: invisible to queries, but it occupies its directory
         if stat.S_ISDIR(st.st_mode):
             return {'t': 'dir'}
         if not stat.S_ISREG(st.st_mode):
@@ -228,6 +230,13 @@ class Sandbox:
                 os.rmdir(fn)
         elif do == 'mkdir':
             self._force_dirs(fn)
+        elif do == 'dangle':
+            self._force_dirs(os.path.dirname(fn))
+            if os.path.isdir(fn) and not os.path.islink(fn):
+                shutil.rmtree(fn)
+            elif os.path.lexists(fn):
+                os.remove(fn)
+            os.symlink(os.path.join(self.top, 'nowhere', 'at-all'), fn)
         elif do == 'corrupt_cache':
             self.corrupt_cache(step['how'], step.get('arg', 0))
         elif do == 'plant_raw':
